@@ -831,38 +831,22 @@ def r_discinfo_pos(model, rep):
     cx, emits = facts.writer_emits(model, f)
     S = P(cx.selfname)
     app = sorted([e for e in emits if e.kind == "append"], key=lambda e: e.ev.seq)
-    # group appends into line positions: two appends in complementary branches of one test fill the same line
-    positions = []
-    for e in app:
-        if positions:
-            prev = positions[-1][-1]
-            if len(prev.guards) == len(e.guards) and prev.guards and prev.guards[:-1] == e.guards[:-1] \
-                    and prev.guards[-1][0] == e.guards[-1][0] and prev.guards[-1][1] != e.guards[-1][1]:
-                positions[-1].append(e)
-                continue
-        positions.append([e])
-
-    def alts(es):
-        out = []
-        for e in es:
-            v = e.value
-            out.extend(list(v[1]) if v[0] == "phi" else [v])
-        return out
-    shapes = [sorted(T.show(T.unwrap(a)) for a in alts(p_)) for p_ in positions]
-    want = [["str(self.timestamp).strip()"], ["self.description.strip()"], ["self.arch.strip()"],
-            sorted(["'ALL'", "','.join(gen<str($0) for $0 in self.disc_numbers>)"])]
-    ok = shapes == want and all(not e.guards for p_ in positions[:3] for e in p_)
+    # the lines written, evaluated for both cases of the 'ALL' sentinel (if/else statement, conditional expression ... alike)
+    isall = ("cmp", ("==",), (("attr", S, "disc_numbers"), ("list", (("const", "ALL"),))))
+    strip = lambda x: ("call", ("attr", x, "strip"), (), ())
+    head = [strip(("call", ("global", "str"), (("attr", S, "timestamp"),), ())), strip(("attr", S, "description")), strip(("attr", S, "arch"))]
+    joined = ("call", ("attr", ("const", ","), "join"), (("comp", "gen", ("call", ("global", "str"), (("bound", "$0"),), ()),
+                                                           ((("names", "$0"), ("attr", S, "disc_numbers"), ()),)),), ())
+    seqs = {}
+    for case in (True, False):
+        sc = facts.Scenario(cx, atoms={isall: case})
+        seqs[case] = [T.unwrap(T.degate(sc.term(facts.emit_raw(e)))) for e in app if facts.emit_raw(e) is not None and sc.holds(e.ev) is not False]
+    ok = seqs[True] == head + [("const", "ALL")] and seqs[False] == head + [joined]
     rep.ob("R-DISCINFO-POS", "DiscInfo.serialize:lines", ok, site=cx.site(f.node),
-           msg="" if ok else "lines must be, in this order: str(timestamp).strip(), description.strip(), arch.strip(), then 'ALL' or the "
-                             "comma-joined disc numbers: %s" % shapes)
-    if ok:
-        isall = ("cmp", ("==",), (("attr", S, "disc_numbers"), ("list", (("const", "ALL"),))))
-        src_all = [ev for ev in cx.events if ev.kind in ("bind", "call") and (
-            (ev.kind == "bind" and ev.value == ("const", "ALL")) or
-            (ev.kind == "call" and ev.value[1][0] == "attr" and ev.value[1][2] == "append" and ev.value[2] == (("const", "ALL"),)))]
-        ok2 = bool(src_all) and all(facts.canon_guards(ev.guards) == frozenset([facts.canon_guard((isall, True))]) for ev in src_all)
-        rep.ob("R-DISCINFO-POS", "DiscInfo.serialize:ALL-sentinel", ok2, site=cx.site(f.node),
-               msg="" if ok2 else "'ALL' must be written exactly when disc_numbers == ['ALL']")
+           msg="" if ok else "lines must be, in this order: str(timestamp).strip(), description.strip(), arch.strip(), then 'ALL' (exactly when "
+                             "disc_numbers == ['ALL']) or the comma-joined disc numbers: %s" % dict((k, [T.show(x)[:50] for x in v]) for k, v in seqs.items()))
+    rep.ob("R-DISCINFO-POS", "DiscInfo.serialize:ALL-sentinel", ok, site=cx.site(f.node), trivial=True,
+           msg="" if ok else "'ALL' must be written exactly when disc_numbers == ['ALL']")
     g = model.own_method("discinfo.DiscInfo", "deserialize")
     reads = facts.reader_reads(model, g)
     gcx = facts.fctx(model, g)
